@@ -340,6 +340,12 @@ def run(ctx):
     for v in tempos:
         judge_message(ctx, 'set_tempo', {'tempo': v}, delta=v % 1000)
         n += 1
+    if ctx.tier == 'thorough':
+        # all 16 777 216 tempos
+        for v in range(sh, 2 ** 24, N):
+            judge_message(ctx, 'set_tempo', {'tempo': v}, via_reader=False)
+        n += len(range(sh, 2 ** 24, N))
+        ctx.extra('tempos_enumerated', len(range(sh, 2 ** 24, N)))
     # texts
     for i, t in enumerate(rmeta.TEXT_TYPES):
         attr = rmeta.SPECS[t][1][0]
